@@ -180,6 +180,8 @@ def h_constants(c):
 def h_from_angles(c):
     from pyqsp.LPoly import LAlg
     ph = dec(c["phases"])
+    if c.get("as_int"):
+        ph = [int(x) for x in ph] if c["as_int"] == "list" else numpy.array([int(x) for x in ph])
     g = LAlg.unitary_from_angles(ph)
     r = enc_lalg(g)
     r["cs"] = [[enc(numpy.cos(t)), enc(numpy.sin(t))] for t in ph]
